@@ -229,7 +229,7 @@ fn op_ftrl_f32(em: &mut Em, hp: [f64; 4], z: &[f64], n: &[f64], probs: &[f32], x
 
 pub(super) fn run(em: &mut Em, rng: &mut Rng) {
     let thorough = em.thorough();
-    let nft = if thorough { 3000 } else { 400 };
+    let nft = if thorough { 6000 } else { 800 };
     for i in 0..nft {
         let p = 1 + rng.below(4);
         let mut hp = [*rng.pick(&[0.005, 0.5, 1.0, 2.0]), *rng.pick(&[0.0, 0.5, 1.0]), *rng.pick(&[0.0, 0.25, 0.5, 1.0]), *rng.pick(&[0.0, 0.5, 1.0])];
